@@ -53,6 +53,7 @@ type Contract struct {
 	HasAssigns bool
 	Loops    map[int]*LoopSpec
 	MapRange map[int]string
+	SortCall map[int]string // ordinal of a sort.Slice call -> "total"
 	PanicsIf *Clause
 	Asserts  []*Clause
 	File     string
@@ -106,7 +107,7 @@ type ContractSet struct {
 
 var clauseKeywords = map[string]bool{
 	"func": true, "props": true, "requires": true, "ensures": true, "pure": true, "opaque": true, "propagates": true, "errignorable": true, "inline": true,
-	"trusted": true, "assigns": true, "loop": true, "maprange": true, "panics": true, "at": true,
+	"trusted": true, "assigns": true, "loop": true, "maprange": true, "sortcall": true, "panics": true, "at": true,
 	"pred": true, "ghost": true, "abstract": true, "reveal": true, "reads": true, "lemma": true, "typeinv": true, "axiom": true, "valueptr": true,
 	"note": true, "end": true, "immutable": true,
 }
@@ -311,6 +312,19 @@ func (cs *ContractSet) parseFile(pkg, file, text string) error {
 				return fmt.Errorf("%s:%d: maprange ordinal: %v", file, ln, err)
 			}
 			cur.MapRange[n] = strings.Join(f[1:], " ")
+		case "sortcall":
+			f := strings.Fields(rest)
+			if len(f) != 2 || f[1] != "total" {
+				return fmt.Errorf("%s:%d: malformed sortcall clause (sortcall N total)", file, ln)
+			}
+			n, err := strconv.Atoi(f[0])
+			if err != nil {
+				return fmt.Errorf("%s:%d: sortcall ordinal: %v", file, ln, err)
+			}
+			if cur.SortCall == nil {
+				cur.SortCall = map[int]string{}
+			}
+			cur.SortCall[n] = f[1]
 		case "panics":
 			if strings.HasPrefix(rest, "if ") {
 				rest = strings.TrimPrefix(rest, "if ")
